@@ -563,41 +563,139 @@ def skip_item(p):
         p.eat()
 
 
-def expand_macro(arms, args):
-    """single-arm macro_rules with $name:kind parameters separated by literal tokens"""
-    if len(arms) != 1:
-        raise Unsupported("macro with %d arms" % len(arms))
-    pat, body = arms[0]
-    binds = {}
-    ai = 0; pi = 0
-    while pi < len(pat):
-        if pat[pi][1] == "$" and pi + 3 < len(pat) + 1 and pat[pi + 2][1] == ":":
-            name = pat[pi + 1][1]; pi += 4
-            stop = pat[pi][1] if pi < len(pat) else None
-            d = 0; start = ai
-            while ai < len(args):
-                t = args[ai][1]
-                if d == 0 and stop is not None and t == stop: break
-                if t in ("(", "[", "{", "<"): d += 1
-                if t in (")", "]", "}", ">"): d -= 1
-                ai += 1
-            binds[name] = args[start:ai]
+def _split_pat(pat):
+    """pattern tokens -> list of elements: ('lit', tok) | ('var', name, kind) | ('rep', [elements], sep, op)"""
+    out = []; i = 0
+    while i < len(pat):
+        t = pat[i][1]
+        if t == "$" and i + 1 < len(pat) and pat[i + 1][1] == "(":
+            d = 0; k = i + 1
+            while k < len(pat):
+                if pat[k][1] == "(": d += 1
+                elif pat[k][1] == ")":
+                    d -= 1
+                    if d == 0: break
+                k += 1
+            inner = _split_pat(pat[i + 2:k])
+            k += 1
+            sep = None
+            if k < len(pat) and pat[k][1] not in ("*", "+", "?"):
+                sep = pat[k][1]; k += 1
+            if k >= len(pat) or pat[k][1] not in ("*", "+"):
+                raise Unsupported("macro repetition operator")
+            out.append(("rep", inner, sep, pat[k][1])); i = k + 1
+        elif t == "$" and i + 3 < len(pat) + 1 and i + 2 < len(pat) and pat[i + 2][1] == ":":
+            out.append(("var", pat[i + 1][1], pat[i + 3][1])); i += 4
         else:
-            if ai >= len(args) or args[ai][1] != pat[pi][1]:
-                raise Unsupported("macro arguments do not match its pattern")
-            ai += 1; pi += 1
-    if ai != len(args):
-        raise Unsupported("macro arguments do not match its pattern")
-    out = []
-    bi = 0
-    while bi < len(body):
-        if body[bi][1] == "$" and bi + 1 < len(body) and body[bi + 1][1] in binds:
-            out += binds[body[bi + 1][1]]; bi += 2
-        elif body[bi][1] == "$":
-            raise Unsupported("macro repetition or unknown metavariable")
-        else:
-            out.append(body[bi]); bi += 1
+            out.append(("lit", t)); i += 1
     return out
+
+
+def _match_frag(kind, args, ai, stop):
+    """consume one fragment of the given kind; returns new index"""
+    if kind in ("ident", "tt", "literal", "lifetime"):
+        if ai >= len(args): raise Unsupported("macro arguments exhausted")
+        return ai + 1
+    d = 0; start = ai
+    while ai < len(args):
+        t = args[ai][1]
+        if d == 0 and stop is not None and t == stop: break
+        if t in ("(", "[", "{", "<"): d += 1
+        if t in (")", "]", "}", ">"):
+            if d == 0: break
+            d -= 1
+        ai += 1
+    if ai == start: raise Unsupported("empty macro fragment")
+    return ai
+
+
+def _match_elems(elems, args, ai, binds):
+    for idx, el in enumerate(elems):
+        nxt = elems[idx + 1] if idx + 1 < len(elems) else None
+        stop = nxt[1] if nxt is not None and nxt[0] == "lit" else ("," if nxt is not None and nxt[0] == "rep" else None)
+        if el[0] == "lit":
+            if ai >= len(args) or args[ai][1] != el[1]: raise Unsupported("macro arguments do not match")
+            ai += 1
+        elif el[0] == "var":
+            e = _match_frag(el[2], args, ai, stop)
+            binds[el[1]] = args[ai:e]; ai = e
+        else:
+            inner, sep = el[1], el[2]
+            reps = []
+            while ai < len(args):
+                b = {}
+                save = ai
+                try:
+                    # a fragment inside a repetition ends at the separator
+                    e = ai
+                    for k2, ie in enumerate(inner):
+                        n2 = inner[k2 + 1] if k2 + 1 < len(inner) else None
+                        st2 = n2[1] if n2 is not None and n2[0] == "lit" else sep
+                        if ie[0] == "lit":
+                            if e >= len(args) or args[e][1] != ie[1]: raise Unsupported("x")
+                            e += 1
+                        elif ie[0] == "var":
+                            e2 = _match_frag(ie[2], args, e, st2); b[ie[1]] = args[e:e2]; e = e2
+                        else:
+                            raise Unsupported("nested macro repetition")
+                    ai = e
+                except Unsupported:
+                    ai = save; break
+                reps.append(b)
+                if sep is not None:
+                    if ai < len(args) and args[ai][1] == sep: ai += 1
+                    else: break
+            if el[3] == "+" and not reps: raise Unsupported("macro repetition needs one item")
+            binds[("rep", tuple(sorted(v for ie in inner if ie[0] == "var" for v in [ie[1]])))] = reps
+    return ai
+
+
+def _subst(body, binds):
+    out = []; i = 0
+    reps = {k: v for k, v in binds.items() if isinstance(k, tuple)}
+    while i < len(body):
+        t = body[i][1]
+        if t == "$" and i + 1 < len(body) and body[i + 1][1] == "(":
+            d = 0; k = i + 1
+            while k < len(body):
+                if body[k][1] == "(": d += 1
+                elif body[k][1] == ")":
+                    d -= 1
+                    if d == 0: break
+                k += 1
+            inner = body[i + 2:k]; k += 1
+            sep = None
+            if k < len(body) and body[k][1] not in ("*", "+"):
+                sep = body[k]; k += 1
+            if k >= len(body) or body[k][1] not in ("*", "+"): raise Unsupported("macro repetition in body")
+            used = {inner[x + 1][1] for x in range(len(inner) - 1) if inner[x][1] == "$"}
+            cands = [v for kk, v in reps.items() if set(kk[1]) & used]
+            if len(cands) != 1: raise Unsupported("macro repetition variables")
+            for n_, b in enumerate(cands[0]):
+                if n_ and sep is not None: out.append(sep)
+                out += _subst(inner, dict(binds, **b))
+            i = k + 1
+        elif t == "$" and i + 1 < len(body) and body[i + 1][1] in binds:
+            out += binds[body[i + 1][1]]; i += 2
+        elif t == "$":
+            raise Unsupported("unknown macro metavariable $%s" % (body[i + 1][1] if i + 1 < len(body) else ""))
+        else:
+            out.append(body[i]); i += 1
+    return out
+
+
+def expand_macro(arms, args):
+    """macro_rules: first arm whose pattern matches; $x:kind parameters and one level of $( .. ) sep * repetition"""
+    last = None
+    for pat, body in arms:
+        binds = {}
+        try:
+            end = _match_elems(_split_pat(pat), args, 0, binds)
+            if end != len(args): raise Unsupported("macro arguments do not match")
+        except Unsupported as ex:
+            last = ex; continue
+        return _subst(body, binds)
+    raise Unsupported("no macro arm matches (%s)" % last)
 
 
 def parse_tokens(toks, rel, acc):
@@ -663,10 +761,20 @@ def parse_tokens(toks, rel, acc):
             while not p.at("{") and p.peek()[0] != "eof":
                 hdr.append(p.eat()[1])
             h = " ".join(hdr)
-            m = re.match(r"^(?:(\w+)(?: < (?:Self|Decimal) >)? for )?(Decimal|i128)$", h)
+            h = re.sub(r" where$", "", h)
+            m = re.match(r"^(?:(\w+)(?: < (Self|Decimal|[ui](?:8|16|32|64|128)) >)? for )?(Decimal|[ui](?:8|16|32|64|128))$", h)
+            if m and m.group(3) != "Decimal" and m.group(3) != "i128" and m.group(2) != "Decimal":
+                m = None
             if not m or "cfg" in attrs:
                 p.skip_balanced("{", "}"); continue
-            impl = m.group(1) or m.group(2); self_ty = "dec" if m.group(2) == "Decimal" else m.group(2)
+            targ = m.group(2)
+            impl = m.group(1) or m.group(3); self_ty = "dec" if m.group(3) == "Decimal" else m.group(3)
+            if targ in INT_TYPES and m.group(3) != "Decimal":
+                impl = "%s_%s_%s" % (impl, m.group(3), targ)   # impl DivRounded<i64> for i128
+            elif targ in INT_TYPES:
+                impl = "%s_%s" % (impl, targ)            # impl Mul<u8> for Decimal  ->  Mul_u8
+            elif m.group(3) != "Decimal" and targ == "Decimal":
+                impl = "%s_by_%s" % (impl, m.group(3))    # impl Mul<Decimal> for u8  ->  Mul_by_u8
             p.eat("{")
             inner_attrs = ""
             assoc = {}
@@ -693,7 +801,7 @@ def parse_tokens(toks, rel, acc):
                     save = p.i
                     try:
                         e = p.expr(); p.eat(";")
-                        acc["impl_consts"]["%s::%s" % (m.group(2), cname)] = (t, e)
+                        acc["impl_consts"]["%s::%s" % (m.group(3), cname)] = (t, e)
                     except Unsupported:
                         p.i = save; skip_item(p)
                     blk["consts"] += 1
@@ -960,7 +1068,7 @@ class Fn:
                 return [], {"Less": "Lt", "Equal": "Eq", "Greater": "Gt"}[p[1]], "ordering"
             if len(p) == 2 and p[0] == "DecimalError":
                 return [], "E_" + p[1], "derr"
-            if len(p) == 2 and p[0] in ("Self", "Decimal") and self.self_ty in ("dec", None) and "Decimal::" + p[1] in self.impl_consts:
+            if len(p) == 2 and (p[0] == "Decimal" or (p[0] == "Self" and self.self_ty == "dec")) and "Decimal::" + p[1] in self.impl_consts:
                 t, ce = self.impl_consts["Decimal::" + p[1]]
                 save = self.self_ty; self.self_ty = "dec"
                 try:
@@ -1149,6 +1257,11 @@ class Fn:
             self.needs_dflt = True
             return [], "dflt", "mode"
         name = p[-1]
+        if len(p) == 2 and p[0] in INT_TYPES and p[1] == "from" and len(x[2]) == 1:
+            pre, a, t = self.e(x[2][0], env, None)
+            if not widening(t, p[0]):
+                raise Unsupported("%s::from of %r" % (p[0], resolve(t)))
+            return pre, a, p[0]
         if len(p) == 2 and p[0] in INT_TYPES and x[2]:
             # i128::checked_add(a, b)  ==  a.checked_add(b)
             return self.mcall(("mcall", x[2][0], p[1], x[2][1:]), env, want)
@@ -1206,6 +1319,8 @@ class Fn:
             if m.startswith("checked"):
                 return pl + pr, "(checked %s (%s %s %s))" % (tyname(t), atom(l), o, atom(r)), ("opt", t)
             return pl + pr, "(wrap %s (%s %s %s))" % (tyname(t), atom(l), o, atom(r)), t
+        if m == "from" and len(args) == 0 and False:
+            pass
         if m == "signum" and not args:
             return pl, "(Z.sgn %s)" % atom(l), tl
         if m == "map" and len(args) == 1 and isinstance(tlr, tuple) and tlr[0] == "opt" and args[0][0] in ("closure", "path"):
@@ -1373,6 +1488,9 @@ class Fn:
             self.lconsts[name] = s[2]; self._lcv = dict(self.lconst_vals(), **{name: val})
             code, pure = rest(env)
             return "let %s := %s in\n%s" % (self.v(name), num(val), code), pure
+        if kind == "let" and s[3][0] == "try" and s[3][1][0] in ("if", "match"):
+            # let p = (if c { a } else { b? })?;  ~>  if c { let p = a?; rest } else { let p = b??..; rest }
+            return self.stmts([("expr", push_let(s[3][1], s[1], s[2], True))] + list(ss[i + 1:]), 0, env, k)
         if kind == "let" and s[3][0] in ("if", "match") and contains_jump(("", s[3])):
             # let p = match .. { A => e1, B => e2? };  ~>  match .. { A => { let p = e1; rest }, B => { let p = e2?; rest } }
             return self.stmts([("expr", push_let(s[3], s[1], s[2]))] + list(ss[i + 1:]), 0, env, k)
@@ -1744,8 +1862,8 @@ def contains_return(blk):
     return bool(found)
 
 
-def push_let(e, pat, ty):
-    """move `let pat = <if/match>` into the branches"""
+def push_let(e, pat, ty, wrap_try=False):
+    """move `let pat = <if/match>` into the branches (wrap_try: the whole if/match was followed by `?`)"""
     def blk(b):
         if b is None:
             raise Unsupported("let from an if without else")
@@ -1757,14 +1875,14 @@ def push_let(e, pat, ty):
                 return b
             raise Unsupported("branch without a value")
         if tail[0] in ("if", "match"):
-            return (list(stmts) + [("expr", push_let(tail, pat, ty))], None)
+            return (list(stmts) + [("expr", push_let(tail, pat, ty, wrap_try))], None)
         if tail[0] == "macro" and tail[1] in ("panic", "unreachable"):
             return (list(stmts) + [("expr", tail)], None)
-        return (list(stmts) + [("let", pat, ty, tail)], None)
+        return (list(stmts) + [("let", pat, ty, ("try", tail) if wrap_try else tail)], None)
     if e[0] == "if":
         el = e[3]
         if el is not None and el[0] == [] and el[1] is not None and el[1][0] == "if":
-            el = ([("expr", push_let(el[1], pat, ty))], None)
+            el = ([("expr", push_let(el[1], pat, ty, wrap_try))], None)
         else:
             el = blk(el)
         return ("if", e[1], blk(e[2]), el)
@@ -1917,6 +2035,7 @@ PRIM_METHODS = {"cmp", "partial_cmp", "eq", "ne", "lt", "le", "gt", "ge", "abs",
                 "checked_mul", "checked_div", "checked_rem", "wrapping_add", "wrapping_sub", "wrapping_mul", "unsigned_abs",
                 "signum", "map", "unwrap", "unwrap_or", "unwrap_or_else", "is_negative", "is_positive", "hash", "default"}
 OUT_DEC = os.path.join(HERE, "..", "coq", "gen", "GenDec.v")
+OUT_INT = os.path.join(HERE, "..", "coq", "gen", "GenInt.v")
 
 
 def generate(targets, file_consts, out_path, header, unit, base=None):
@@ -1978,7 +2097,7 @@ def generate(targets, file_consts, out_path, header, unit, base=None):
         grew = False
         for n in list(fns):
             for c in callees(fns[n]):
-                if c not in fns and c in acc["fns"]:
+                if c not in fns and c in acc["fns"] and not (base and c in base[1]):
                     fns[c] = acc["fns"][c]; grew = True
     # which functions reach RoundingMode::default()
     uses = set(base[2]) if base else set()
@@ -2059,7 +2178,8 @@ def generate(targets, file_consts, out_path, header, unit, base=None):
         import subprocess
         coqdir = os.path.join(HERE, "..", "coq")
         if os.path.exists(os.path.join(coqdir, "Makefile")):
-            subprocess.run(["make", "gen/GenCore.vo"], cwd=coqdir, stdout=subprocess.DEVNULL, stderr=subprocess.DEVNULL, timeout=600)
+            subprocess.run(["make", "gen/GenCore.vo"] + (["gen/GenDec.vo"] if unit == "int" else []), cwd=coqdir,
+                           stdout=subprocess.DEVNULL, stderr=subprocess.DEVNULL, timeout=600)
     text = validate(out, status, deps=[os.path.dirname(out_path)] if base else [])
     old = open(out_path).read() if os.path.exists(out_path) else None
     if old != text:
@@ -2088,17 +2208,39 @@ def main():
                "(* enum DecimalError (src/errors.rs): only the variants the translated functions name *)",
                "Inductive derr := E_InternalOverflow | E_DivisionByZero | E_MaxNFracDigitsExceeded | E_InfiniteValue | E_NotANumber.", ""]
     try:
-        st_dec, _ = generate(DEC_TARGETS, [], OUT_DEC, hdr_dec, "dec", base)
+        st_dec, base_dec = generate(DEC_TARGETS, [], OUT_DEC, hdr_dec, "dec", base)
     except Exception as ex:
         st_dec = {"translated": [], "failed": {"GenDec.v": "translator error: %r" % (ex,)}, "missing": []}
+        base_dec = base
         print("rs2v[dec]: translator error %r" % (ex,))
+    int_files = ["src/lib.rs", "src/binops/add_sub.rs", "src/binops/checked_add_sub.rs", "src/binops/mul.rs", "src/binops/checked_mul.rs",
+                 "src/binops/div.rs", "src/binops/checked_div.rs", "src/binops/div_rounded.rs", "src/binops/rem.rs",
+                 "src/binops/checked_rem.rs", "src/binops/cmp.rs"]
+    try:
+        acc = dict(fns={}, consts={}, macros={}, impl_consts={})
+        for f in int_files:
+            parse_file(f, acc)
+        by_file = {}
+        for k, f in acc["fns"].items():
+            if re.match(r"^\w+?_(by_)?[ui](8|16|32|64|128)(_[ui]\d+)?::", k):
+                by_file.setdefault(f["file"], []).append(k)
+        int_targets = [(f, by_file.get(f, [])) for f in int_files]
+        hdr_int = ["(* GENERATED by tools/rs2v.py from /repo's current source - do not edit.  The integer-operand forms of the",
+                   "   Decimal operators (macro-generated impls over u8 .. i128), in terms of GenCore.v and GenDec.v. *)",
+                   "From FP Require Import Machine GenCore GenDec.", ""]
+        st_int, _ = generate(int_targets, [], OUT_INT, hdr_int, "int", base_dec)
+    except Exception as ex:
+        st_int = {"translated": [], "failed": {"GenInt.v": "translator error: %r" % (ex,)}, "missing": []}
+        print("rs2v[int]: translator error %r" % (ex,))
     status = dict(st_core)
     status["dec"] = st_dec
+    status["int"] = st_int
     with open(STATUS, "w") as fh:
         json.dump(status, fh, indent=1, sort_keys=True)
     print("rs2v: %d functions translated, %d failed, %d missing" % (
-        len(st_core["translated"]) + len(st_dec["translated"]), len(st_core["failed"]) + len(st_dec["failed"]),
-        len(st_core["missing"]) + len(st_dec["missing"])))
+        len(st_core["translated"]) + len(st_dec["translated"]) + len(st_int["translated"]),
+        len(st_core["failed"]) + len(st_dec["failed"]) + len(st_int["failed"]),
+        len(st_core["missing"]) + len(st_dec["missing"]) + len(st_int["missing"])))
     return 0
 
 
